@@ -313,3 +313,39 @@ Proof.
   induction l as [|q t IH]; intros pos; cbn [rcurs curs]; [constructor|]. constructor; [|apply IH].
   specialize (IH (S pos)). destruct IH as [|r c rs cs E _]; cbn [hd0]; [reflexivity|]. rewrite E. reflexivity.
 Qed.
+
+(* ---------- the usual closed form of the factor: (1 + eps)^k - 1 <= gamma_k = k eps / (1 - k eps) when k eps < 1 ---------- *)
+Lemma pw_nonneg eps k : 0 <= eps -> 0 <= pw eps k.
+Proof. intros He. induction k as [|k IH]; cbn [pw]; [lra|]. nra. Qed.
+Lemma pw_gamma_mul eps : 0 <= eps -> forall k, pw eps k * (1 - qn k * eps) <= 1.
+Proof.
+  intros He. induction k as [|k IH].
+  - cbn [pw]. change (qn 0) with 0. lra.
+  - cbn [pw]. rewrite qn_S. pose proof (pw_nonneg eps k He) as Hp. pose proof (qn_nonneg k) as Hk.
+    assert (E : (1 + eps) * pw eps k * (1 - (qn k + 1) * eps)
+                == pw eps k * (1 - qn k * eps) - pw eps k * ((qn k + 1) * (eps * eps))) by ring.
+    rewrite E. assert (0 <= pw eps k * ((qn k + 1) * (eps * eps))) by (apply Qmult_le_0_compat; [exact Hp|]; nra). lra.
+Qed.
+Definition gamma (eps : Q) (k : nat) : Q := qn k * eps / (1 - qn k * eps).
+Theorem pw_le_gamma eps k : 0 <= eps -> qn k * eps < 1 -> pw eps k - 1 <= gamma eps k.
+Proof.
+  intros He Hk. unfold gamma. set (D := 1 - qn k * eps). assert (HD : 0 < D) by (unfold D; lra).
+  pose proof (pw_gamma_mul eps He k) as H. fold D in H.
+  apply Qle_shift_div_l; [exact HD|]. setoid_replace ((pw eps k - 1) * D) with (pw eps k * D - D) by ring. unfold D at 2. lra.
+Qed.
+
+(* the efficiency bound in closed form: what the C06 check evaluates with eps = 2^-53 *)
+Theorem rkernel_efficiency_gamma (rnd : Q -> Q) (eps : Q) : 0 <= eps -> (forall x, Qabs (rnd x - x) <= eps * Qabs x) ->
+  forall n (ts : list kpoint), (0 < n)%nat -> ts <> [] -> (forall t, In t ts -> Permutation (snd t) (seq 0 n)) ->
+  qn (3 * n + length ts + 1) * eps < 1 ->
+  Qabs (sumQ (fun x => x) (rkernel_t rnd n ts)
+        - sumQ (fun t : kpoint => hd_u (fst (fst t)) (snd (fst t)) (snd t) - snd (fst t)) ts / qn (length ts))
+  <= gamma eps (3 * n + length ts + 1) * (sumQ (fun t : kpoint => tv (fst (fst t)) (snd (fst t)) (snd t)) ts / qn (length ts)).
+Proof.
+  intros He Hr n ts Hn Hne Hp Hk. eapply Qle_trans; [apply (rkernel_efficiency rnd eps He Hr n ts Hn Hne Hp)|].
+  apply Qmult_le_compat_r; [apply pw_le_gamma; assumption|].
+  apply Qdiv_nonneg. apply sumQ_nonneg. intros t _.
+  assert (G : forall u null l, 0 <= tv u null l).
+  { intros u null l. induction l as [|q l IH]; cbn [tv]; [lra|]. pose proof (Qabs_nonneg (u q - hd_u u null l)). lra. }
+  apply G.
+Qed.
